@@ -7,7 +7,15 @@ use crate::passes::{DiagnosticManager, LintError, LintPass};
 pub struct CalleeSavedRegisterCheck;
 impl LintPass for CalleeSavedRegisterCheck {
     fn run(cfg: &Cfg, errors: &mut DiagnosticManager) {
-        for func in cfg.functions().values() {
+        // Every function once (a function with several labels is in the map several times),
+        // in program order
+        let mut funcs: Vec<_> = Vec::new();
+        for node in cfg {
+            if let Some(func) = node.is_function_entry_with_func() {
+                funcs.push(func);
+            }
+        }
+        for func in &funcs {
             let exit_vals = func.exit().reg_values_in();
             for reg in &Register::callee_saved_set() {
                 match exit_vals.get(&reg) {
